@@ -1775,9 +1775,12 @@ int parse_instruction_mips(AsmContext *asm_context, char *instr)
     }
 
     const uint32_t jump_address = operands[0].value & 0x0fffffff;
-    const uint32_t address = operands[0].value & 0xf0000000;
+    // The upper four bits of the target come from the delay slot's address
+    // (forward references are not known yet in pass 1).
+    const uint32_t address = (asm_context->address + 4) & 0xf0000000;
 
-    if ((address & 0xf0000000) != (operands[0].value & 0xf0000000))
+    if (asm_context->pass == 2 &&
+        (address & 0xf0000000) != (operands[0].value & 0xf0000000))
     {
       printf("Error: Jump address on wrong page at %s:%d\n",
         asm_context->tokens.filename, asm_context->tokens.line);
